@@ -691,7 +691,7 @@ theorem lookupAll_freshSt (t : List Leaf) (k : List Nat) (st : Strategy) :
     simp [TrieBuf.lookupAll, TrieBuf.entriesIterFor, freshSt, TrieBuf.initFile, TrieBuf.initMem, TrieBuf.btreeRange,
       TrieBuf.btHas, h]
   | fuzzyPartialPrefix =>
-    -- since fix 097161a the prefix lookup goes through `entries()`; nothing is pending in a fresh state
+    -- since fix c3d9fb2 the prefix lookup goes through `entries()`; nothing is pending in a fresh state
     rw [← TrieBuf.trie_entries_fuzzy]
     simp [TrieBuf.lookupAll, TrieBuf.entriesIterFor, TrieBuf.entries, freshSt, TrieBuf.initFile, TrieBuf.initMem,
       TrieBuf.btEntries, TrieBuf.btHas, he]
